@@ -43,6 +43,8 @@ def main():
     ctx = Ctx(prop, a.tier, seed)
     # replay inputs of the listed known findings always run first, so that each finding is re-established on every run
     ctx.known_replays = [k["replay"] for k in lib.load_known(prop) if k.get("kind") == "known" and k.get("replay")]
+    # inputs of repaired findings: regression corpus (a fixed entry suppresses nothing; if the defect returns it is reported)
+    ctx.fixed_replays = [k["replay"] for k in lib.load_known(prop) if k.get("kind") == "fixed" and k.get("replay")]
 
     if a.replay:
         rep = json.load(open(a.replay))
